@@ -371,4 +371,26 @@ theorem chunkFactsOk_spec (size step span : Option Nat) (h : chunkFactsOk size s
     refine ⟨h3, h4, ?_⟩
     intro c hc; subst hc; simpa using h5
 
+
+/-! ### the converted sum does not depend on the order of the sources -/
+
+theorem minFactor_perm {l l' : List (Nat × Nat)} (h : l.Perm l') : minFactor l = minFactor l' := by
+  induction h with
+  | nil => rfl
+  | cons x _ ih => simp only [minFactor, ih]
+  | swap x y l =>
+    simp only [minFactor]
+    cases minFactor l with
+    | none => simp [Nat.min_comm]
+    | some m => simp only [Option.some.injEq]; omega
+  | trans _ _ ih1 ih2 => rw [ih1, ih2]
+
+theorem convertedSum_perm (m : Nat) {l l' : List (Nat × Nat)} (h : l.Perm l') :
+    convertedSum m l = convertedSum m l' := by
+  induction h with
+  | nil => rfl
+  | cons x _ ih => simp only [convertedSum, ih]
+  | swap x y l => simp only [convertedSum]; omega
+  | trans _ _ ih1 ih2 => rw [ih1, ih2]
+
 end PV.Fetch
